@@ -38,8 +38,8 @@ RC = "src/microjs/regex/compiler.py"
 
 # ------------------------------------------------------------------ C01 / C02-R1
 M("c01-drop-poll-callback-loop", ["C01", "C02"], VM,
-  "            while len(self.call_stack) > call_stack_len:\n                self._check_limits()\n",
-  "            while len(self.call_stack) > call_stack_len:\n",
+  "                while len(self.call_stack) > call_stack_len:\n                    self._check_limits()\n",
+  "                while len(self.call_stack) > call_stack_len:\n",
   [("C01", "C01-R1", "_call_callback"), ("C02", "C02-R1a", "_call_callback")])
 M("c01-poll-under-condition", ["C01"], VM,
   "        while self.call_stack:\n            self._check_limits()\n",
@@ -77,9 +77,9 @@ M("c01-translate-to-jserror", ["C01"], VM,
   "            try:\n                return re.test(string)\n            except RegexTimeoutError:\n                raise JSError(\"Regex execution timeout\")",
   [("C01", "C01-R5", "test_fn")])
 M("c01-widen-except-jserror", ["C01"], VM,
-  "            except JSTypeError as e:\n                # Convert Python JSTypeError to JavaScript TypeError\n                self._handle_python_exception(\"TypeError\", str(e))",
-  "            except (JSTypeError, JSError) as e:\n                # Convert Python errors to JavaScript TypeError\n                self._handle_python_exception(\"TypeError\", str(e))",
-  [("C01", "C01-R6", r"VM\._execute:except")])
+  "        except JSTypeError as e:\n            # Convert Python JSTypeError to JavaScript TypeError\n            self._handle_python_exception(\"TypeError\", str(e))",
+  "        except (JSTypeError, JSError) as e:\n            # Convert Python errors to JavaScript TypeError\n            self._handle_python_exception(\"TypeError\", str(e))",
+  [("C01", "C01-R6", r"VM\._run_opcode")])
 M("c01-eval-swallows-limits-again", ["C01"], CX,
   "                return vm.run(bytecode_module)\n            except JSError:\n                # Syntax errors, uncaught script errors and limit errors keep their class\n                raise\n            except Exception as e:",
   "                return vm.run(bytecode_module)\n            except Exception as e:",
@@ -201,8 +201,8 @@ M("c04-to-int32-unguarded", ["C04"], VM,
   "        n = to_number(value)\n        if n == 0:\n            return 0\n        n = int(n)\n        n = n & 0xFFFFFFFF\n        if n >= 0x80000000:",
   [("C04", "C04-R2", "_to_int32")])
 M("c04-decoder-misses-new", ["C04", "C14"], VM,
-  "                    OpCode.CALL_METHOD,\n                    OpCode.NEW,\n                    OpCode.BUILD_ARRAY,\n                    OpCode.BUILD_OBJECT,\n                    OpCode.BUILD_REGEX,\n                    OpCode.MAKE_CLOSURE,\n                    OpCode.TYPEOF_NAME,\n                ):\n                    arg = bytecode[frame.ip]\n                    frame.ip += 1\n\n                self._execute_opcode(op, arg, frame)",
-  "                    OpCode.CALL_METHOD,\n                    OpCode.BUILD_ARRAY,\n                    OpCode.BUILD_OBJECT,\n                    OpCode.BUILD_REGEX,\n                    OpCode.MAKE_CLOSURE,\n                    OpCode.TYPEOF_NAME,\n                ):\n                    arg = bytecode[frame.ip]\n                    frame.ip += 1\n\n                self._execute_opcode(op, arg, frame)",
+  "                        OpCode.CALL_METHOD,\n                        OpCode.NEW,\n                        OpCode.BUILD_ARRAY,\n                        OpCode.BUILD_OBJECT,\n                        OpCode.BUILD_REGEX,\n                        OpCode.MAKE_CLOSURE,\n                        OpCode.TYPEOF_NAME,\n                    ):\n                        arg = bytecode[frame.ip]\n                        frame.ip += 1\n\n                    self._run_opcode(op, arg, frame)",
+  "                        OpCode.CALL_METHOD,\n                        OpCode.BUILD_ARRAY,\n                        OpCode.BUILD_OBJECT,\n                        OpCode.BUILD_REGEX,\n                        OpCode.MAKE_CLOSURE,\n                        OpCode.TYPEOF_NAME,\n                    ):\n                        arg = bytecode[frame.ip]\n                        frame.ip += 1\n\n                    self._run_opcode(op, arg, frame)",
   [("C04", "C04-R3", "NEW"), ("C14", "C14-R3", "NEW")])
 M("c04-syntax-error-unpositioned", ["C04"], PA,
   "        return JSSyntaxError(message, self.current.line, self.current.column)", "        return JSSyntaxError(message)",
@@ -249,7 +249,7 @@ M("c13-nonblock-misses-switch", ["C13"], PA,
 
 # ------------------------------------------------------------------ C07 / C08 / C09 / C10
 T("t-rangeerror-clause-folded-into-generic", ["C07"], VM,
-  "            except JSRangeError as e:\n                # Convert Python JSRangeError to JavaScript RangeError\n                self._handle_python_exception(\"RangeError\", str(e))\n", "",
+  "        except JSRangeError as e:\n            # Convert Python JSRangeError to JavaScript RangeError\n            self._handle_python_exception(\"RangeError\", str(e))\n", "",
   note="the generic JSError clause converts a RangeError under its own name")
 M("c07-wrong-constructor-name", ["C07"], VM,
   "self._handle_python_exception(\"ReferenceError\", str(e))", "self._handle_python_exception(\"TypeError\", str(e))",
@@ -400,11 +400,11 @@ M("c10-lookahead-step-limit-dropped", ["C10"], RV,
   "",
   [("C10", "C10-R2$", r"_execute_lookahead:matcher-loop:step-budget")])
 M("c07-generic-handler-swallows-limits", ["C01"], VM,
-  "            except (TimeLimitError, MemoryLimitError):\n                raise\n            except JSError as e:",
-  "            except JSError as e:",
-  [("C01", "C01-R6", "_execute")])
+  "        except (TimeLimitError, MemoryLimitError):\n            raise\n        except JSError as e:",
+  "        except JSError as e:",
+  [("C01", "C01-R6", "_run_opcode")])
 M("c07-syntax-error-not-converted", ["C07", "C19"], VM,
-  "            except JSError as e:\n                # Any other engine error raised while running (a SyntaxError from\n                # eval, new Function, JSON.parse or new RegExp, an error from a\n                # nested evaluation) is catchable by an enclosing try/catch\n                if not self.exception_handlers:\n                    raise\n                self._handle_python_exception(e.name, e.message)\n",
+  "        except JSError as e:\n            # Any other engine error raised while running (a SyntaxError from\n            # eval, new Function, JSON.parse or new RegExp, an error from a\n            # nested evaluation) is catchable by an enclosing try/catch\n            if not self.exception_handlers:\n                raise\n            self._handle_python_exception(e.name, e.message)\n",
   "",
   [("C07", "C07-R5", "JSSyntaxError"), ("C19", "C19-R2", "JSSyntaxError")])
 M("c09-lookahead-shallow-snapshot", ["C09"], RV,
@@ -471,3 +471,30 @@ S("seed-C17-a", ["C17"], "seeded/C17-a/patch.diff", [("C17", "C17-R8", "field-al
 S("seed-C18-a", ["C18"], "seeded/C18-a/patch.diff", [], note="documented gap: the exponent threshold is a numeric constant")
 S("seed-C19-a", ["C19"], "seeded/C19-a/patch.diff", [("C19", "C19-R4b", "guard-state")])
 S("seed-C20-a", ["C20"], "seeded/C20-a/patch.diff", [("C20", "C20-R1", "sync")], silent=["C04"], note="C04 must stay silent: the int() operand is guarded against NaN and both infinities")
+
+# ------------------------------------------------------------------ throw across a native boundary (protocol of fix 4d3e914)
+M("c07-boundary-not-published", ["C07", "C05"], VM,
+  "            self._callback_depths.append(call_stack_len)\n", "            self._callback_depths.append(0)\n",
+  [("C07", "C07-R3$", "unwound-below"), ("C05", "C05-R7", "unwound-below")])
+M("c07-boundary-compare-inclusive", ["C07"], VM,
+  "                and self.exception_handlers[-1][0] < self._callback_depths[-1]\n", "                and self.exception_handlers[-1][0] <= self._callback_depths[-1]\n",
+  [("C07", "C07-R3$", "unwound-below")])
+M("c07-call-reenters-full-loop-again", ["C07", "C08"], VM,
+  "        # Run the function to completion (and only the function)\n        return self._call_callback(func, args, this_val)\n",
+  "        self._invoke_js_function(func, args, this_val)\n        return self._execute()\n",
+  [("C07", "C07-R3$", "reenters-full-loop"), ("C08", "C08-R6", "reenters-full-loop")])
+M("c07-signal-swallowed-by-native", ["C07"], VM,
+  "            for i, elem in enumerate(arr._elements):\n                vm._call_callback(callback, [elem, i, arr])\n            return UNDEFINED\n",
+  "            for i, elem in enumerate(arr._elements):\n                try:\n                    vm._call_callback(callback, [elem, i, arr])\n                except Exception:\n                    break\n            return UNDEFINED\n",
+  [("C07", "C07-R3c", "forEach_fn")])
+M("c04-signal-not-caught-by-wrapper", ["C04", "C07"], VM,
+  "        except _PendingThrow as pending:\n            # A callback run by a native threw past it: the native is unwound,\n            # look for the handler again from this run loop\n            self._throw(pending.value)\n",
+  "",
+  [("C04", "C04-R1", "_PendingThrow"), ("C07", "C07-R3c", "contained")])
+M("c04-signal-pop-not-in-finally", ["C04", "C07"], VM,
+  "                    self._run_opcode(op, arg, frame)\n            finally:\n                self._callback_depths.pop()\n",
+  "                    self._run_opcode(op, arg, frame)\n            except JSError:\n                raise\n            self._callback_depths.pop()\n",
+  [("C04", "C04-R1", "_PendingThrow"), ("C07", "C07-R3c", "contained")])
+T("t-run-opcode-inlined-in-execute", ["C01", "C02", "C07"], VM,
+  "            self._run_opcode(op, arg, frame)\n\n            # Check if frame was popped (return)",
+  "            try:\n                self._execute_opcode(op, arg, frame)\n            except _PendingThrow as pending:\n                self._throw(pending.value)\n            except JSTypeError as e:\n                self._handle_python_exception(\"TypeError\", str(e))\n            except JSReferenceError as e:\n                self._handle_python_exception(\"ReferenceError\", str(e))\n            except JSRangeError as e:\n                self._handle_python_exception(\"RangeError\", str(e))\n            except (TimeLimitError, MemoryLimitError):\n                raise\n            except JSError as e:\n                if not self.exception_handlers:\n                    raise\n                self._handle_python_exception(e.name, e.message)\n\n            # Check if frame was popped (return)")
